@@ -39,6 +39,12 @@ def jobs(tier):
         for ev in ("SELL", "MOVE"):
             js.append({"country": c, "event": ev})
         js.append({"country": c, "event": "EARN"})
+        # every other disposal type (a staking loss is a disposal although STAKING is also an earn type) and income type
+        if c in ("us", "generic") or tier == "thorough":
+            for typ in ("GIFT", "DONATE", "FEE", "LOST", "STAKING"):
+                js.append({"country": c, "event": "SELL", "type": typ})
+            for typ in ("AIRDROP", "HARDFORK", "INCOME", "MINING", "STAKING", "WAGES"):
+                js.append({"country": c, "event": "EARN", "type": typ})
     js.append({"country": "generic", "event": "ENV"})
     # one disposal spanning several lots: every fraction is classified on its own (real compute_tax, symbolic instants)
     for m in ("fifo", "lifo", "hifo"):
@@ -48,11 +54,11 @@ def jobs(tier):
 
 
 def describe(spec):
-    return "%s %s%s" % (spec["country"], spec["event"], " %s %s" % (spec["code"], spec["method"]) if spec["event"] == "MULTI" else "")
+    return "%s %s%s%s" % (spec["country"], spec["event"], ":" + spec["type"] if spec.get("type") else "", " %s %s" % (spec["code"], spec["method"]) if spec["event"] == "MULTI" else "")
 
 
 def bounds(tier):
-    return {"instants": "1970-01-02 .. 9999-12-30 UTC, microseconds", "utc_offsets_minutes": [-720, 840], "generic_period_days": [0, 10**7], "countries": ["us", "es", "jp", "ie", "generic"], "events": ["SELL", "MOVE (transfer fee)", "earn"], "loop_free": True, "multi_lot": "jobs MULTI: real compute_tax on BBS / BSS (thorough BBSS) with an own symbolic instant and UTC offset per transaction inside 2020, generic plugin with a 2-day period, fifo/lifo/hifo: every fraction must carry the flag of its own pair of instants"}
+    return {"instants": "1970-01-02 .. 9999-12-30 UTC, microseconds", "utc_offsets_minutes": [-720, 840], "generic_period_days": [0, 10**7], "countries": ["us", "es", "jp", "ie", "generic"], "events": ["SELL", "MOVE (transfer fee)", "INTEREST", "us and generic%s: also GIFT, DONATE, FEE, LOST, STAKING out-transactions and AIRDROP, HARDFORK, INCOME, MINING, STAKING, WAGES in-transactions" % ("" if tier == "quick" else " (thorough: every country)")], "loop_free": True, "multi_lot": "jobs MULTI: real compute_tax on BBS / BSS (thorough BBSS) with an own symbolic instant and UTC offset per transaction inside 2020, generic plugin with a 2-day period, fifo/lifo/hifo: every fraction must carry the flag of its own pair of instants"}
 
 
 def assumptions():
@@ -98,14 +104,15 @@ def run(S, spec):
     oe = S.int("oe", -720, 840)
     one = RP2Decimal("1")
     if spec["event"] == "EARN":
-        ev = InTransaction(cfg, S.ts(te, oe), "B1", "X1", "H1", "INTEREST", one, one, fiat_fee=ZERO, row=11)
+        ev = InTransaction(cfg, S.ts(te, oe), "B1", "X1", "H1", spec.get("type", "INTEREST"), one, one, fiat_fee=ZERO, row=11)
         g = GainLoss(cfg, one, ev, None)
         S.expect(g.is_long_term_capital_gains() is False, "C05", "earn-long", "an income event was classified long-term")
         return "ok"
     S.assume_cmp(tl, "<=", te)
     lot = InTransaction(cfg, S.ts(tl, ol), "B1", "X1", "H1", "BUY", one, one, fiat_fee=ZERO, row=10)
     if spec["event"] == "SELL":
-        ev = OutTransaction(cfg, S.ts(te, oe), "B1", "X1", "H1", "SELL", one, one, ZERO, row=11)
+        typ = spec.get("type", "SELL")
+        ev = OutTransaction(cfg, S.ts(te, oe), "B1", "X1", "H1", typ, one, ZERO if typ == "FEE" else one, one if typ == "FEE" else ZERO, row=11)
     else:
         ev = IntraTransaction(cfg, S.ts(te, oe), "B1", "X1", "H1", "X2", "H1", one, RP2Decimal("2"), one, row=11)
     g = GainLoss(cfg, one, ev, lot)
